@@ -333,6 +333,6 @@ var interleaveProp = pbt.Prop[Plan]{ID: "C10", Name: "interleave", Gen: genPlan,
 
 func TestProp_interleave(t *testing.T) { interleaveProp.Check(t) }
 
-func TestReplay(t *testing.T) { pbt.Replay(t, interleaveProp) }
+func TestReplay(t *testing.T) { pbt.Replay(t, interleaveProp, sqlExportProp) }
 
 var _ = io.EOF
